@@ -30,6 +30,14 @@ class _Normalise(ast.NodeTransformer):
     """Type annotations carry no run-time behaviour the rules care about: `x: T = v` is analysed as `x = v`, a bare `x: T`
     as `pass`, and parameter / return annotations are dropped (line numbers are kept)."""
 
+    def visit_ClassDef(self, node):
+        # class P(typing.NamedTuple): a: int; b: int = 0   -- the field list lives in the annotations that are dropped below
+        if any((isinstance(b, ast.Attribute) and b.attr == 'NamedTuple') or (isinstance(b, ast.Name) and b.id == 'NamedTuple') for b in node.bases):
+            fields = [(st.target.id, st.value) for st in node.body if isinstance(st, ast.AnnAssign) and isinstance(st.target, ast.Name)]
+            node._nt_fields = fields
+        self.generic_visit(node)
+        return node
+
     def visit_AnnAssign(self, node):
         self.generic_visit(node)
         if node.value is None:
@@ -86,6 +94,46 @@ class _Normalise(ast.NodeTransformer):
             elt = Sub().visit(elt)
             out.append(ast.copy_location(ast.Assign(targets=[ast.Name(id=t.id, ctx=ast.Store())], value=elt, type_comment=None), node))
         return out
+
+    def visit_For(self, node):
+        """`for T in map(f, xs): BODY` is `for _m in xs: T = f(_m); BODY`: map is lazy, so f is applied to each element right
+        before the body runs for it, in order."""
+        self.generic_visit(node)
+        it = node.iter
+        if (isinstance(it, ast.Call) and isinstance(it.func, ast.Name) and it.func.id == 'map' and len(it.args) == 2 and not it.keywords
+                and isinstance(it.args[0], ast.Name) and not isinstance(it.args[1], ast.Starred)):
+            tmp = '_mapped_{}'.format(node.lineno)
+            call = ast.Call(func=it.args[0], args=[ast.Name(id=tmp, ctx=ast.Load())], keywords=[])
+            bind = ast.Assign(targets=[node.target], value=call, type_comment=None)
+            new = ast.For(target=ast.Name(id=tmp, ctx=ast.Store()), iter=it.args[1], body=[bind] + node.body, orelse=node.orelse, type_comment=None)
+            ast.copy_location(new, node)
+            ast.copy_location(bind, node)
+            for sub in ast.walk(bind):
+                if not hasattr(sub, 'lineno'):
+                    ast.copy_location(sub, node)
+            ast.copy_location(new.target, node)
+            return new
+        # for a, b in zip(range(n), itertools.count(start, step)): BODY   is   for a in range(n): b = start + a * step; BODY
+        if (isinstance(it, ast.Call) and isinstance(it.func, ast.Name) and it.func.id == 'zip' and len(it.args) == 2 and not it.keywords
+                and isinstance(node.target, (ast.Tuple, ast.List)) and len(node.target.elts) == 2 and all(isinstance(e, ast.Name) for e in node.target.elts)):
+            rng, cnt = it.args
+            is_count = isinstance(cnt, ast.Call) and ((isinstance(cnt.func, ast.Attribute) and cnt.func.attr == 'count' and isinstance(cnt.func.value, ast.Name)
+                                                       and cnt.func.value.id == 'itertools') or (isinstance(cnt.func, ast.Name) and cnt.func.id == 'count')) \
+                and not cnt.keywords and len(cnt.args) <= 2 and not any(isinstance(a, ast.Starred) for a in cnt.args)
+            is_range = isinstance(rng, ast.Call) and isinstance(rng.func, ast.Name) and rng.func.id == 'range' and len(rng.args) == 1 and not rng.keywords
+            simple = lambda e: isinstance(e, (ast.Name, ast.Constant))
+            if is_count and is_range and all(simple(a) for a in cnt.args):
+                a_name, b_name = node.target.elts
+                start = cnt.args[0] if cnt.args else ast.Constant(value=0)
+                step = cnt.args[1] if len(cnt.args) == 2 else ast.Constant(value=1)
+                value = ast.BinOp(left=start, op=ast.Add(), right=ast.BinOp(left=ast.Name(id=a_name.id, ctx=ast.Load()), op=ast.Mult(), right=step))
+                bind = ast.Assign(targets=[ast.Name(id=b_name.id, ctx=ast.Store())], value=value, type_comment=None)
+                new = ast.For(target=ast.Name(id=a_name.id, ctx=ast.Store()), iter=rng, body=[bind] + node.body, orelse=node.orelse, type_comment=None)
+                for n_ in [new, bind] + list(ast.walk(bind)) + [new.target]:
+                    if not hasattr(n_, 'lineno') or n_ in (new, bind):
+                        ast.copy_location(n_, node)
+                return new
+        return node
 
     def _fn(self, node):
         self.generic_visit(node)
